@@ -8,7 +8,7 @@ from vlib import Failure
 WORKLOADS = {
     'C02': dict(quick=[('generic', 14, 60, 4000), ('names', 10, 60, 4000), ('bigfile', 8, 40, 6000)],
                 thorough=[('generic', 300, 300, 4000), ('names', 200, 300, 4000), ('bigfile', 100, 150, 12000), ('generic', 100, 200, 40000)]),
-    'C04': dict(quick=[('names', 12, 60, 4000), ('recycle', 8, 50, 4000), ('generic', 8, 60, 2200), ('fail', 10, 70, 1600)],
+    'C04': dict(quick=[('names', 8, 60, 4000), ('recycle', 6, 50, 4000), ('generic', 6, 50, 2200), ('fail', 8, 70, 1600)],
                 thorough=[('names', 200, 300, 4000), ('recycle', 150, 200, 4000), ('generic', 150, 300, 2200), ('bigfile', 60, 150, 12000)]),
     'C05': dict(quick=[('reclaim', 12, 60, 4000), ('reclaim', 6, 40, 9000)],
                 thorough=[('reclaim', 250, 200, 4000), ('reclaim', 60, 120, 9000), ('names', 100, 200, 2200)]),
